@@ -6,6 +6,8 @@ Unit level (real code of src/intron_graph.py, src/graph_based_model_construction
   graph_system          the REAL IntronCollector / IntronGraph / IntronPathProcessor objects driven through random valid mutator sequences
                         (cluster_introns, add_edge, collapse_vertex, discard, simplify_correction_map, thread_introns), logged by the same
                         recorder as the pipeline wrapper and validated as runs of the abstract system
+  collector             the REAL IntronCollector.add_substitute / discard / simplify_correction_map driven directly through every short valid call sequence
+                        (substitution chains, substitutes discarded afterwards) and IntronPathProcessor.thread_introns on the result
   detect_similar        the REAL detect_similar_isoforms on small model sets (assigner stubbed): which models may be absorbed
 Pipeline level: harness/c04_wrapper.py logs every mutator call of the real graph, every decision of construct_fl_isoforms and the model
 store during real runs (bundled data, generated worlds with novel-chain reads, annotation-free runs, --report_canonical all, every
